@@ -990,7 +990,7 @@ def typeof(t, env) -> str:
 
 
 class Model:
-    def __init__(self, world, *, order_rule="portable", implicit_window_order=False):
+    def __init__(self, world, *, order_rule="portable", implicit_window_order=True):
         self.world = world
         self.order_rule = order_rule  # "portable": order only from arrange; "polars": list order
         self.implicit_window_order = implicit_window_order
@@ -1241,7 +1241,8 @@ class Model:
         n.types = {ren[c]: ty for c, ty in st.types.items() if c in ren}
         n.visible = [ren[c] for c in st.visible]
         n.group = [ren[c] for c in st.group]
-        n.rows = [{ren.get(c, c): v for c, v in r.items()} for r in st.rows]
+        # (cells of columns that are out of scope are dropped, not carried under their old id)
+        n.rows = [{ren.get(c, c): v for c, v in r.items() if c in ren or c.startswith("#")} for r in st.rows]
         n.origin = frozenset([f"alias{tag}"])
         return n
 
@@ -1263,6 +1264,7 @@ class Model:
         n = st.copy()
         vis = set(n.visible)
         n.cols = {c: nm for c, nm in n.cols.items() if c in vis or c.startswith("#")}
+        n.rows = [{c: v for c, v in r.items() if c in vis or c.startswith("#")} for r in n.rows]
         return n
 
     def _v_transfer(self, st, states, e):
@@ -1271,6 +1273,7 @@ class Model:
         n = st.copy()
         vis = set(n.visible)
         n.cols = {c: nm for c, nm in n.cols.items() if c in vis}
+        n.rows = [{c: v for c, v in r.items() if c in vis or c.startswith("#")} for r in n.rows]
         n.group = []
         return n
 
